@@ -1,8 +1,18 @@
-(* C16 — configuration updates: accepted iff the body parses and names the revision in force;
-   an accepted update raises the revision by exactly one and installs the parsed
-   configuration; anything else changes nothing; GLINE writes the replicated configuration;
-   replicas of one log agree at every position.  Posts are issued one after another
-   ([cfg_step]: the proposal is applied before the next post is handled).
+(* C16 — configuration updates.  Two layers:
+   (a) the handler (postconfig.go), when it answers from the state of the node that applies:
+       accepted iff the body parses and names the revision in force; an accepted update raises
+       the revision by exactly one and installs the parsed configuration; anything else changes
+       nothing (C16_accept, C16_step, C16_reject, C16_revision_counts);
+   (b) the state machine alone, for ANY log — whatever the proposing handlers saw (lagging
+       behind the log after a restart, D20; commit b3bad2c): a Config entry takes effect only
+       if it parses and carries the revision in force + 1; the revision moves by 0 or +1 per
+       entry; the configuration changes only together with the revision; copies of one update
+       take effect at most once; the updates in effect carry consecutive revisions; a post
+       answered from any state has an effect only if it names the revision in force on the
+       applying node; every replica of a log agrees at every position (C16_fsm_*,
+       C16_entry_revision_step, C16_config_with_revision, C16_log_effects, C16_same_revision_once,
+       C16_duplicate, C16_log_revision_steps, C16_stale_post, C16_replicas).
+   GLINE writes the replicated configuration (C16_gline).
    Statements over Api/ConfigPost.v for every TOML parser [toml_parse]. *)
 From Coq Require Import List Bool NArith String.
 From RV Require Import Base.Text Api.Auth Api.ConfigPost Api.ConfigPostProofs.
@@ -34,10 +44,62 @@ Proof. exact fsm_skips_invalid. Qed.
 Print Assumptions C16_fsm_skip.
 
 Theorem C16_fsm_install : forall base toml_parse (st : cstate base) d r b bl,
-  toml_parse d = Some (b, bl) ->
+  toml_parse d = Some (b, bl) -> r = (cs_rev st + 1)%N ->
   capply base toml_parse st (CEConfig d r) = mkC r b bl (cs_leader st).
 Proof. exact fsm_installs_valid. Qed.
 Print Assumptions C16_fsm_install.
+
+Theorem C16_fsm_out_of_sequence : forall base toml_parse (st : cstate base) d r,
+  r <> (cs_rev st + 1)%N -> capply base toml_parse st (CEConfig d r) = st.
+Proof. exact fsm_skips_out_of_sequence. Qed.
+Print Assumptions C16_fsm_out_of_sequence.
+
+Theorem C16_entry_revision_step : forall base toml_parse (st : cstate base) e,
+  cs_rev (capply base toml_parse st e) = cs_rev st \/
+  cs_rev (capply base toml_parse st e) = (cs_rev st + 1)%N.
+Proof. exact entry_revision_step. Qed.
+Print Assumptions C16_entry_revision_step.
+
+Theorem C16_config_with_revision : forall base toml_parse (st : cstate base) e,
+  cs_rev (capply base toml_parse st e) = cs_rev st ->
+  cs_base (capply base toml_parse st e) = cs_base st /\
+  (forall d r, e = CEConfig d r -> capply base toml_parse st e = st).
+Proof. exact config_changes_only_with_revision. Qed.
+Print Assumptions C16_config_with_revision.
+
+(* any log: the updates in effect carry the revisions rev0+1, rev0+2, ... in order, and the
+   final revision counts them *)
+Theorem C16_log_effects : forall base toml_parse l (st : cstate base),
+  ceffects base toml_parse l st = seqN (cs_rev st + 1)%N (List.length (ceffects base toml_parse l st)) /\
+  cs_rev (creplay base toml_parse l st) = (cs_rev st + N.of_nat (List.length (ceffects base toml_parse l st)))%N.
+Proof. exact log_effects_consecutive. Qed.
+Print Assumptions C16_log_effects.
+
+Theorem C16_same_revision_once : forall base toml_parse l (st : cstate base),
+  NoDup (ceffects base toml_parse l st).
+Proof. exact same_revision_once. Qed.
+Print Assumptions C16_same_revision_once.
+
+Theorem C16_duplicate : forall base toml_parse (st : cstate base) d d' r,
+  takes_effect base toml_parse st (CEConfig d r) = true ->
+  capply base toml_parse (capply base toml_parse st (CEConfig d r)) (CEConfig d' r) = capply base toml_parse st (CEConfig d r).
+Proof. exact duplicate_has_no_effect. Qed.
+Print Assumptions C16_duplicate.
+
+Theorem C16_log_revision_steps : forall base toml_parse l e (st : cstate base),
+  cs_rev (creplay base toml_parse (l ++ [e]) st) = cs_rev (creplay base toml_parse l st) \/
+  cs_rev (creplay base toml_parse (l ++ [e]) st) = (cs_rev (creplay base toml_parse l st) + 1)%N.
+Proof. exact log_revision_steps. Qed.
+Print Assumptions C16_log_revision_steps.
+
+(* a post answered from ANY state [view]: effect on the applying node only if the header names
+   the revision in force there and the body parses *)
+Theorem C16_stale_post : forall base toml_parse (view st : cstate base) hdr body,
+  cfg_step_from base toml_parse view st hdr body = st \/
+  (parse_uint0 hdr = Some (cs_rev st) /\ exists b bl, toml_parse body = Some (b, bl) /\
+   cfg_step_from base toml_parse view st hdr body = mkC (cs_rev st + 1)%N b bl (cs_leader st)).
+Proof. exact stale_post_harmless. Qed.
+Print Assumptions C16_stale_post.
 
 Theorem C16_gline : forall base toml_parse (st : cstate base) a r,
   let st' := capply base toml_parse st (CEGline a r) in
